@@ -27,6 +27,7 @@ type groupReg struct {
 	respect  bool
 	delay    time.Duration
 	spin     int
+	raceStop bool // register as soon as a stop has been invoked (start racing with the stop)
 
 	regInv, regRet uint64
 	regAt          int64
@@ -65,6 +66,7 @@ func groupWorld(r *R) {
 			rg.delay = time.Duration(r.Choose(12, "reg-delay")) * 23 * time.Millisecond
 		}
 		rg.spin = r.Choose(6, "reg-spin")
+		rg.raceStop = !settled && r.Choose(3, "race-stop") == 2
 		if rg.runTime > longest {
 			longest = rg.runTime
 		}
@@ -121,6 +123,9 @@ func groupWorld(r *R) {
 			defer func() { registrarsDone++ }()
 			if rg.delay > 0 {
 				sim.Sleep(rg.delay, "registrar-delay")
+			}
+			if rg.raceStop {
+				sim.WaitUntil("registrar-wait-stop", func() bool { return anyStopInv != 0 })
 			}
 			Spin(rg.spin, "registrar-pace")
 			sim.Yield("register")
